@@ -116,6 +116,8 @@ fn key_strategy() -> BoxedStrategy<String> {
         3 => select(vec!["path", "Path", "PATH", "k", "K", "key", "Key", "é", "É", "k ", " k", " ", "tab\t", "k\u{a0}"]).prop_map(|s| s.to_string()),
         2 => vec(select(vec!['k', ';', ' ', 'é', '\u{13d}', '.', 'K', '\u{ff1d}']), 1..5).prop_map(|v| v.into_iter().collect::<String>()),
         1 => "[a-z]{200,250}",
+        // any printable ASCII except '=' (quotes, backquotes, backslashes, brackets, ...)
+        3 => "[ -<>-~]{1,6}",
     ]
     .boxed()
 }
@@ -127,6 +129,7 @@ fn value_strategy() -> BoxedStrategy<Option<String>> {
         5 => "[a-z0-9]{1,8}".prop_map(Some),
         2 => vec(select(vec!['v', '=', ';', 'é', '\u{13b}', '😀', ' ']), 1..6).prop_map(|v| Some(v.into_iter().collect::<String>())),
         1 => "[a-z]{200,260}".prop_map(Some),
+        2 => "[ -~]{1,8}".prop_map(Some),
     ]
     .boxed()
 }
